@@ -78,6 +78,7 @@ pub struct Session {
     pub fsyncs: AtomicU64,
     /// flush requests completed by the store's workers
     pub worker_done: AtomicU64,
+    pub worker_begin: AtomicU64,
     pub sched: Mutex<Option<Arc<dyn SchedHooks>>>,
     /// Environment action run when the store reaches a named point (sequential engines).
     pub point_cb: Mutex<Option<Box<dyn Fn(&'static str) + Send + Sync>>>,
@@ -103,6 +104,7 @@ impl Session {
             device_writes: AtomicU64::new(0),
             fsyncs: AtomicU64::new(0),
             worker_done: AtomicU64::new(0),
+            worker_begin: AtomicU64::new(0),
             sched: Mutex::new(None),
             point_cb: Mutex::new(None),
             points_seen: Mutex::new(Vec::new()),
@@ -271,6 +273,8 @@ impl Handler for Session {
     fn note(&self, name: &'static str, a: u64, b: u64) {
         if name == "worker_done" {
             self.worker_done.fetch_add(1, Ordering::SeqCst);
+        } else if name == "worker_begin" {
+            self.worker_begin.fetch_add(1, Ordering::SeqCst);
         }
         if let Some(s) = self.sched() {
             s.note(name, a, b);
